@@ -14,7 +14,7 @@ objects.  For rules changed by a transformation the detection *object tree* the 
 model's `to_plain` of that tree is compared with the real one (same plain form, or both refuse).
 A disagreement is reported as drift; the deciding judgements are the ones on the real code above."""
 from __future__ import annotations
-import copy, datetime, math, random, re, uuid
+import copy, datetime, json, math, random, re, uuid
 from .common import Verdict, cps, outcome_of_exception
 from . import c01, c12
 from .c03 import plain
@@ -24,7 +24,8 @@ GEN = ["Mods", "B64", "Ser"]
 RULE = ("rule documents with all metadata fields (dates in both accepted spellings, tags, related, references, custom "
         "attributes, falsepositives, fields, level, status), all detection shapes and modifier chains of the C01 generator; "
         "correlation rules of all types with aliases, group-by, timespans, extended conditions; filters; and rule objects "
-        "after any single transformation of the C12 list; distinct = distinct document; non-trivial = >= 2 detection items or a "
+        "after any single transformation of the C12 list, after many-to-one field mappings over items with equal or different modifier "
+        "chains (key collisions in to_plain's merging loop); distinct = distinct document; non-trivial = >= 2 detection items or a "
         "modifier chain or a correlation/filter document")
 ASSUMPTIONS = [
     "queries are compared as text produced by the test backend (same backend, same configuration on both sides)",
@@ -148,7 +149,49 @@ T2 = [
     ({"sel": [{"f|wide": "a"}, {"f": "b"}]}, {"type": "field_name_mapping", "mapping": {"f": ["g", "h"]}}),
     ({"sel": {"f|fieldref": "f"}}, {"type": "field_name_mapping", "mapping": {"f": ["g", "h"]}}),
     ({"sel": ["kw1", "kw2"]}, {"type": "field_name_mapping", "mapping": {"nothing": "x"}}),
+    # colliding keys after a many-to-one mapping (former findings: neq collision, D73 neq + all)
+    ({"sel": {"a|neq": "x", "b|neq": "y"}}, {"type": "field_name_mapping", "mapping": {"a": "c", "b": "c"}}),
+    ({"sel": {"a|neq|all": "s", "b|neq|all": ["u"]}}, {"type": "field_name_mapping", "mapping": {"a": "c", "b": "c"}}),
+    ({"sel": {"a|all|neq": ["p", "q"], "b|all|neq": "s", "c|all|neq": ["v", "w"]}}, {"type": "field_name_mapping", "mapping": {"a": "c", "b": "c"}}),
+    ({"sel": {"a|contains|neq": "x", "b|contains|neq": ["y", "z"]}}, {"type": "field_name_mapping", "mapping": {"a": "c", "b": "c"}}),
+    ({"sel": {"a": "x", "b": "y", "d": "z"}}, {"type": "field_name_mapping", "mapping": {"a": "c", "b": "c", "d": "c"}}),
+    ({"sel": {"a|contains|all": ["p", "q"], "b|contains|all": "s"}}, {"type": "field_name_mapping", "mapping": {"a": "c", "b": "c"}}),
 ]
+
+
+# many-to-one field mappings: several items of one map end up under the same key, to_plain's merging loop decides
+M1_MODS = ["", "contains", "neq", "contains|neq", "all", "re", "cased", "exists", "gt", "cidr", "fieldref", "contains|all", "all|neq",
+           "neq|all", "base64", "windash", "startswith|cased", "re|i", "endswith", "lt|neq", "cased|neq", "re|neq"]
+
+
+def m1_value(rnd, mods):
+    ms = mods.split("|")
+    if "exists" in ms: return rnd.choice([True, False])
+    if "gt" in ms or "lt" in ms: return rnd.choice([1, 5, [2, 7]])
+    if "cidr" in ms: return rnd.choice(["10.0.0.0/8", "192.168.0.0/16", ["10.1.0.0/16", "172.16.0.0/12"]])
+    if "fieldref" in ms: return rnd.choice(["other", "x1", ["o1", "o2"]])
+    if "re" in ms: return rnd.choice(["a.*b", "^x", ["p+", "q"]])
+    if "windash" in ms: return rnd.choice(["-a", "x -y"])
+    if "base64" in ms: return rnd.choice(["ab", "x"])
+    if "all" in ms: return rnd.choice([["p", "q"], "s", ["u"], ["v", "w", "x"]])
+    if mods == "": return rnd.choice(["x", "y*", 1, None, ["l1", "l2"], ["one"], []])
+    return rnd.choice(["x", "y*", "zz", ["l1", "l2"], ["one"]])
+
+
+def gen_many_to_one(rnd):
+    """-> (detection map, transformation): two or three fields of one map are sent to the same target"""
+    srcs = rnd.sample(["a", "b", "d"], rnd.choice([2, 2, 3]))
+    m = rnd.choice(M1_MODS)
+    det = {}
+    for f in srcs:
+        mm = m if rnd.random() < 0.8 else rnd.choice(M1_MODS)
+        det[f + ("|" + mm if mm else "")] = m1_value(rnd, mm)
+    if rnd.random() < 0.3:       # the target itself, plain or already with all
+        mm = rnd.choice([m, (m + "|all").lstrip("|") if "all" not in m.split("|") else m])
+        det["c" + ("|" + mm if mm else "")] = m1_value(rnd, mm)
+    if rnd.random() < 0.3:
+        det["other"] = "o"
+    return det, {"type": "field_name_mapping", "mapping": {f: "c" for f in srcs}}
 
 
 def t_yaml(t):
@@ -189,6 +232,12 @@ def gen_cases(tier, seed, gen, effort):
             doc["logsource"] = rule["logsource"]
             doc["detection"] = {**rule["dets"], "condition": rule["cond"]}
             cases.append({"kind": "transformed", "doc": doc, "t": c12.gen_transformation(rr)})
+            if rr.random() < 0.5:
+                det, ty = gen_many_to_one(rr)
+                doc = meta(rnd, i)
+                shape = rr.random()
+                doc["detection"] = {"sel": det if shape < 0.8 else [det, {"z": "k"}], "condition": rr.choice(["sel", "not sel"])}
+                cases.append({"kind": "transformed", "doc": doc, "t": {"yaml": ty}})
     # fixed regression sub-stream: every (rule, transformation) pair of T2 (the inputs of the former findings
     # D60, D61, D68 among them) in every run
     for n, (dets, ty) in enumerate(T2):
@@ -322,6 +371,38 @@ def convert_corr(doc):
         return "ERR:" + outcome_of_exception(e)
 
 
+def canon_condition(rule_obj):
+    """the rule's post-processed condition trees in a normal form modulo associativity, commutativity and idempotence
+    of AND / OR (operands flattened, sorted, duplicates dropped): equal normal forms are logically equivalent"""
+    import sigma.conditions as cnd
+    from sigma.types import SigmaExpansion
+
+    def leaf(field, v):
+        if isinstance(v, SigmaExpansion):
+            return nary("or", [leaf(field, x) for x in v.values])
+        return ["atom", field, type(v).__name__, repr(v), repr(getattr(v, "flags", None))]
+
+    def nary(op, kids):
+        flat = []
+        for k in kids:
+            flat.extend(k[1] if k[0] == op else [k])
+        uniq = sorted({json.dumps(k, sort_keys=True): k for k in flat}.items())
+        uniq = [k for _, k in uniq]
+        return uniq[0] if len(uniq) == 1 else [op, uniq]
+
+    def go(n):
+        if isinstance(n, cnd.ConditionAND): return nary("and", [go(a) for a in n.args])
+        if isinstance(n, cnd.ConditionOR): return nary("or", [go(a) for a in n.args])
+        if isinstance(n, cnd.ConditionNOT): return ["not", go(n.args[0])]
+        if isinstance(n, cnd.ConditionFieldEqualsValueExpression): return leaf(n.field, n.value)
+        if isinstance(n, cnd.ConditionValueExpression): return leaf(None, n.value)
+        raise OutOfDomain(f"condition node {type(n).__name__}")
+    try:
+        return json.dumps([go(c.parsed) for c in copy.deepcopy(rule_obj).detection.parsed_condition], sort_keys=True)
+    except Exception:
+        return None
+
+
 def run_impl(case):
     import yaml
     from sigma.rule import SigmaRule
@@ -344,10 +425,12 @@ def run_impl(case):
             from sigma.collection import SigmaCollection
             class B0(TextQueryTestBackend):
                 backend_processing_pipeline = PP()
+                convert_and_as_in = False      # AND-linked values as 'f=a and f=b': merged 'all' items then read like the items they replace
             try:
                 out["q_obj"] = B0().convert(SigmaCollection([copy.deepcopy(obj)], resolve_references=False))
             except Exception as e:
                 out["q_obj"] = "ERR:" + outcome_of_exception(e)
+            out["c_obj"] = canon_condition(obj)
             try:
                 out["tree"] = [[cps(n), obj_tree(d)] for n, d in obj.detection.detections.items()]
             except OutOfDomain as e:
@@ -389,6 +472,8 @@ def run_impl(case):
             from sigma.collection import SigmaCollection
             class B(TextQueryTestBackend):
                 backend_processing_pipeline = PP()
+                convert_and_as_in = False
+            out["c_reload"] = canon_condition(obj2)
             try:
                 out["q_reload"] = B().convert(SigmaCollection([obj2], resolve_references=False))
             except Exception as e:
@@ -471,6 +556,13 @@ def classify(case):
             targets = [t for v in ty["mapping"].values() for t in (v if isinstance(v, list) else [v])]
             if any(t == "" or "|" in t for t in targets):
                 return "D67"   # target field name that cannot be written as a key
+            one = {f: t for f, t in ty["mapping"].items() if isinstance(t, str)}
+            for d in doc["detection"].values():
+                for x in walk_defs(d):
+                    if isinstance(x, dict):
+                        written = [canon_key("|".join([one.get(k.split("|")[0], k.split("|")[0])] + k.split("|")[1:])) for k in x]
+                        if any(written.count(w) > 1 and {"neq", "all"} <= set(w.split("|")[1:]) for w in written):
+                            return "D73"   # two negated 'all' items end up under the same key
         return None
     if case["kind"] != "rule":
         return None
@@ -580,6 +672,10 @@ def decide(case, impl):
     if "reload" in impl:
         return Verdict("violation", f"the serialised form of {case['kind']} does not load again: {impl['reload']} {impl.get('msg')} :: {doc.get('detection', doc)} {case.get('t')}", nt, key, finding=fid, tags=tuple(tags))
     if case["kind"] == "transformed":
+        if impl["q_obj"] != impl["q_reload"] and impl.get("c_obj") is not None and impl.get("c_obj") == impl.get("c_reload"):
+            # the query texts differ only by order, grouping or repetition of AND / OR operands (e.g. colliding keys merged
+            # into one 'all' item): the condition trees have the same normal form modulo AC and idempotence
+            return Verdict("ok", "", nt, key, tags=tuple(tags + ["serialised", "equal-modulo-AC"]))
         if impl["q_obj"] != impl["q_reload"] and not (isinstance(impl["q_obj"], str) and isinstance(impl["q_reload"], str)):
             return Verdict("violation", (f"after {t_yaml(case['t'])} the rule serialises without error but the reloaded rule converts to {impl['q_reload']} "
                                          f"while the transformed rule converts to {impl['q_obj']} :: {doc['detection']}"), nt, key, finding=fid, tags=tuple(tags))
